@@ -92,6 +92,21 @@ CHECKS = {
          "For all 17 message types the full product of per-field boundary alphabets (addresses, Int/Dec incl. omitted-on-the-wire nil, Coins incl. nil amount / duplicates / invalid denom, durations and times incl. int64 extremes, Any incl. nil / foreign type / empty type url, nil pointers and nil slice elements, strings, JSON) - 21 672 inputs - each taken through a protobuf marshal / unmarshal / UnpackInterfaces round trip and run in 3 states (empty, populated, pool whose vesting type was removed): ValidateBasic must not panic, if it passes the handler (real router; msg server for cfesignature) must not panic and GetSigners must not panic; every query of the four modules with nil and boundary requests must not panic.",
          "Inputs that cannot be encoded/decoded are counted as unreachable and not executed.",
          "DESIGN.md §3 C20"),
+ "C11": ("model_checking",
+         "exhaustive history set (BFS trees of six scenarios) executed by independent OS processes through ABCI, transcripts compared",
+         "The maximal BFS-tree histories of six scenarios (supply c01, vesting c05, parameters c10 and c13, signature c15, lineage c17: ~7 400 histories quick, depth 3; depth 4 thorough) are each executed by R independent OS processes (R=2 quick, 4 thorough) strictly through InitChain / BeginBlock / DeliverTx (real signed transactions) / EndBlock / Commit; per ABCI response the deterministic fields (code, codespace, data, gas wanted/used, events) and every Commit app hash must be identical.",
+         "Exhaustive over the listed histories, not over Go map iteration orders (stated limit): a state-affecting map iteration is missed by one history with probability <= 2^-(R-1). Log/Info strings excluded (ABCI declares them non-deterministic).",
+         "DESIGN.md §3 C11"),
+ "C12": ("model_checking",
+         "explicit-state BFS with a restart at every state: module-level export/import on branches + real ABCI export / InitChain of a second application",
+         "Five scenarios (supply, vesting, parameters, signature, lineage). Every explored state (depth 3 quick / 4 thorough, ~8 000 states) gets a module-level restart on a branch (each custom module's exported ExportGenesis -> JSON -> Validate -> wiped store -> InitGenesis; store must be unchanged). Every BFS-tree state up to depth 2 (quick, ~900 export points) / 3 (thorough) is reached through real ABCI with signed transactions and commits, exported with ExportAppStateAndValidators, validated per module, imported into a second application with InitChain, re-exported (canonical JSON equal), stores of the four custom modules + bank + auth compared, custom query answers compared, and every continuation of length 1 (quick) / 2 (thorough) over the scenario alphabet compared on both applications (outcome, stores, typed events, queries).",
+         "Two known findings (known_findings.json): cfesignature exports no signatures/links; accounts with start == end fail x/auth genesis validation. The burn state's empty-vs-absent account encoding is normalised (no data).",
+         "DESIGN.md §3 C12"),
+ "C16": ("exploration",
+         "bounded-exhaustive enumeration of pre-upgrade stores in the previous format, whole upgrade handler executed",
+         "Product alphabet of pre-upgrade states written in the previous store format (v2 pools and traces under the old prefixes, legacy x/params subspaces, module versions 2): pool layouts of the hard-coded owner (subsets and orders of Validators / Advisors / other pool; currently locked in {0, sum-1, sum, sum+1, 2*sum}; with and without sent/withdrawn history), a second owner's pool of the removed type, vesting type present/absent, the four hard-coded accounts in 5 kinds, 6 legacy minter and 4 legacy distributor parameter sets (344 cases quick, ~2 400 thorough); each case runs the whole registered v1.2.0 handler through UpgradeKeeper.ApplyUpgrade. Total locked and module balance unchanged, every pool's sent/withdrawn unchanged, solvency and registered invariants, split all-or-nothing, shifted accounts keep amounts, other accounts byte-identical, traces preserved, migrated minter parameters validate and give the same exact-rational schedule on a time grid, distributor parameters byte-equal.",
+         "In-process on a store branch of an application whose genesis has no ICA state.",
+         "DESIGN.md §3 C16"),
 }
 
 NOT_YET = {}
